@@ -4,9 +4,10 @@ cd "$(dirname "$0")/.."
 tier=$1; shift
 for c in "$@"; do
   s=$(date +%s)
-  ./check $c --tier $tier > /tmp/run_seq_$c.log 2>&1; rc=$?
+  ./check $c --tier $tier ${SEED:+--seed $SEED} > /tmp/run_seq_$c.$$.log 2>&1; rc=$?
   e=$(date +%s)
-  echo "== $c tier=$tier rc=$rc wall=$((e-s))s"
-  grep -E "^(VIOLATION|KNOWN-FINDING|INCONCLUSIVE|OK )" /tmp/run_seq_$c.log | cut -c1-400
-  grep -E "TLC " /tmp/run_seq_$c.log | cut -c1-220
+  echo "== $c tier=$tier seed=${SEED:-1} rc=$rc wall=$((e-s))s"
+  grep -E "^(VIOLATION|KNOWN-FINDING|INCONCLUSIVE|OK )" /tmp/run_seq_$c.$$.log | cut -c1-400
+  grep -E "TLC " /tmp/run_seq_$c.$$.log | cut -c1-220
+  rm -f /tmp/run_seq_$c.$$.log
 done
